@@ -140,24 +140,42 @@ func TakeSnap(c *abci.Chain) Snap {
 	}
 	sort.Slice(s.Undels, func(i, j int) bool { return s.Undels[i] < s.Undels[j] })
 	// identity registrar
+	// owners: the test accounts, then any other address that owns a record (e.g. the target of a rotation)
+	var owners []string
+	for _, a := range c.Accounts {
+		owners = append(owners, a.Addr.String())
+	}
+	recs := k.GetAllIdentityRecords(ctx)
+	var extra []string
+	for _, r := range recs {
+		known := false
+		for _, o := range append(owners, extra...) {
+			known = known || o == r.Address
+		}
+		if !known {
+			extra = append(extra, r.Address)
+		}
+	}
+	sort.Strings(extra)
+	owners = append(owners, extra...)
 	ownerIdx := func(addr string) uint64 {
-		for i, a := range c.Accounts {
-			if a.Addr.String() == addr {
+		for i, a := range owners {
+			if a == addr {
 				return uint64(i + 1)
 			}
 		}
 		return 0
 	}
-	for _, r := range k.GetAllIdentityRecords(ctx) {
+	for _, r := range recs {
 		s.IdRecords = append(s.IdRecords, [2]uint64{r.Id, ownerIdx(r.Address)*10000000 + keyCode(r.Key)})
 	}
 	ii := sdk.KVStorePrefixIterator(store, govtypes.KeyPrefixIdentityRecordByAddress)
 	for ; ii.Valid(); ii.Next() {
 		rest := string(ii.Key()[len(govtypes.KeyPrefixIdentityRecordByAddress):])
 		owner, key := uint64(0), rest
-		for i, a := range c.Accounts {
-			if strings.HasPrefix(rest, a.Addr.String()) {
-				owner, key = uint64(i+1), rest[len(a.Addr.String()):]
+		for i, a := range owners {
+			if strings.HasPrefix(rest, a) {
+				owner, key = uint64(i+1), rest[len(a):]
 			}
 		}
 		s.IdIndex = append(s.IdIndex, [2]uint64{owner*10000000 + keyCode(key), sdk.BigEndianToUint64(ii.Value())})
